@@ -1,12 +1,13 @@
 from functools import partial
 
+import numpy as onp
 import numpy.linalg as npla
 
 from autograd.extend import defjvp, defvjp
 from autograd.tracer import isbox
 
 from . import numpy_wrapper as anp
-from .numpy_vjps import match_complex
+from .numpy_vjps import match_complex, unbroadcast
 from .numpy_wrapper import wrap_namespace
 
 wrap_namespace(npla.__dict__, globals())
@@ -68,11 +69,19 @@ defvjp(pinv, grad_pinv)
 
 
 def grad_solve(argnum, ans, a, b):
-    updim = lambda x: x if x.ndim == a.ndim else x[..., None]
+    # b holds vectors rather than matrices: a 1-D b (and, before NumPy 2, a stack of vectors
+    # one dimension short of a)
+    b_holds_vectors = anp.ndim(b) == 1 or (
+        onp.lib.NumpyVersion(onp.__version__) < "2.0.0" and anp.ndim(b) == anp.ndim(a) - 1
+    )
+    updim = lambda x: x[..., None] if b_holds_vectors else x
+    # a and b broadcast against each other over the leading (stack) dimensions
     if argnum == 0:
-        return lambda g: match_complex(a, -_dot(updim(solve(T(a), g)), T(updim(ans))))
+        return lambda g: match_complex(
+            a, unbroadcast(-_dot(updim(solve(T(a), g)), T(updim(ans))), anp.metadata(a))
+        )
     else:
-        return lambda g: match_complex(b, solve(T(a), g))
+        return lambda g: match_complex(b, unbroadcast(solve(T(a), g), anp.metadata(b)))
 
 
 defvjp(solve, partial(grad_solve, 0), partial(grad_solve, 1))
